@@ -311,12 +311,14 @@ impl Check for C14 {
 
 pub struct C09;
 
-const LOCAL_POOL: &[&str] = &["a", "b", "x", "len", "push", "min", "filter", "n", "abs", "y", "dict", "set", "i", "max", "t", "s", "q", "r", "w", "z"];
+const LOCAL_POOL: &[&str] = &["a", "b", "x", "len", "push", "min", "filter", "n", "abs", "y", "pop", "get", "i", "max", "t", "s", "q", "r", "w", "z"];
+/// hazard pool: names of namespaces the std preamble imports (quarantined: KF-C09-namespace-over-local)
+const NAMESPACE_POOL: &[&str] = &["dict", "set", "math", "maybe", "common", "a", "dict", "x", "set", "n", "b", "y", "math", "i", "t", "s", "q", "r", "w", "z"];
 const GLOBAL_POOL: &[&str] = &["a", "b", "x", "n", "y", "t", "s", "q", "r", "w", "z", "g", "h", "k", "m", "u"];
 
-fn shadow_names(p: &Program, a: &scope::Analysis, salt: u64) -> (Vec<String>, u64) {
+fn shadow_names(p: &Program, a: &scope::Analysis, salt: u64, local_pool: &[&str]) -> (Vec<String>, u64) {
     // globals take names from the pool without std names; locals may reuse everything
-    let (mut names, mut reused) = scope::shadowing_names(p, a, LOCAL_POOL, salt);
+    let (mut names, mut reused) = scope::shadowing_names(p, a, local_pool, salt);
     let (gnames, _) = scope::shadowing_names(p, a, GLOBAL_POOL, salt);
     // a global must not collide with std imports: re-pick from the global pool
     let mut changed = false;
@@ -608,8 +610,13 @@ impl Check for C09 {
         let an = scope::analyse(&p);
         let distinct = default_name(&p);
         // (i) renamings
-        let (n1, reused1) = shadow_names(&p, &an, 0);
-        let (n2, reused2) = shadow_names(&p, &an, rng.next() | 1);
+        let hazard_case = index % 8 == 5;
+        let pool = if hazard_case { NAMESPACE_POOL } else { LOCAL_POOL };
+        if hazard_case {
+            st.count("hazard_cases(local_named_like_namespace)");
+        }
+        let (n1, reused1) = shadow_names(&p, &an, 0, pool);
+        let (n2, reused2) = shadow_names(&p, &an, rng.next() | 1, pool);
         let f1 = |b: BId| n1[b].clone();
         let f2 = |b: BId| n2[b].clone();
         let long = |b: BId| if b == p.start { "start".to_string() } else { format!("a_rather_long_identifier_name_{}_{}", p.binders[b].hint, b) };
@@ -626,7 +633,7 @@ impl Check for C09 {
         let sample = vs[1].text.clone();
         let out = compare_variants(&vs, false);
         // D1-type leaks show up as acceptance/lua differences of the shadowing variants
-        let accepted = record(st, out, index, None, "C09");
+        let accepted = record(st, out, index, if hazard_case { Some("local_named_like_namespace".to_string()) } else { None }, "C09");
         if accepted {
             if reused1 >= 2 {
                 st.nontrivial(hash64(vs[0].text.as_bytes()));
@@ -670,6 +677,9 @@ impl Check for C09 {
         }
     }
     fn replay_witness(&self, _ctx: &Ctx, f: &Finding) -> Option<String> {
+        if f.raw.get("witness_variants").is_some() {
+            return replay_variants(f, false);
+        }
         let text = f.raw.get("witness_text").and_then(|x| x.as_str())?;
         match sy::compile_str(text) {
             sy::Compiled::Ok(_) => Some(f.signature.trim_end_matches('*').to_string() + "witness"),
